@@ -138,6 +138,22 @@ CHECKS = {
              "records as it re-arranges integers (the placement oracle runs the same numpy function on index arrays) — the "
              "index maps of repeat/tile/split/diag/choose/advanced indexing are numpy's, not modelled. dtype preservation is "
              "checked on /repo only. Known finding D21 (repeat default axis)."),
+    "C10": dict(
+        technique="Coq proof: linear column functions (sum, cumsum, mean, diff, ediff1d) give the same linear combination of "
+                  "the element polynomials for EVERY weight matrix; prod = ordered product of slices (induction over the fold "
+                  "of multiply); inner/outer/matmul = sums of products of re-arranged operands; det 1x1/2x2 formulas; numpy on "
+                  "formal-element object arrays as oracle of the index structure; vm_compute correspondence",
+        text="Theorems (Props/P_C10.v, closed under the global context), for every shape, operand, term/name set and option "
+             "record: a linear numpy function applied column-wise with weights W yields at j the polynomial sum_(i,w in W_j) "
+             "w * element i (never failing on well-formed input), so sum over any axis set is the sum over the fibre; prod "
+             "yields prod_k element F_k(j) for the slice maps F; the gather-multiply-reduce pipeline of inner/outer/matmul "
+             "yields sum_t w_t * a[sa t] * b[sb t]; det of 1x1 is the entry and of 2x2 stacks a00*a11 - a10*a01.",
+        note="Trusted: Coq kernel+VM, MathComp/SsrMultinomials. The weight matrices / fibres / slice maps are numpy's: the "
+             "harness obtains them by running the same numpy function on object arrays of formal elements and evaluates the "
+             "resulting expression in exact arithmetic; they are not modelled in Coq. Partial: det for sizes >= 3 (first-row "
+             "Laplace recursion) is modelled, run against /repo and compared with an exact Leibniz oracle, but has no theorem "
+             "yet; mean is compared with the exact rational value to 1e-9. Known findings D22 (zero-size diff), D23 (matmul "
+             "with 1-D operands, pinned by the repository's test)."),
     "C08": dict(
         technique="Coq proof by evaluation over regenerated finite tables (registries, reduce/accumulate maps, numpy's "
                   "overridable callables) lifted with allP; bridge over the dispatch control flow of baseclass.py; "
